@@ -65,7 +65,7 @@ class UnitCtx:
     self.notes = []
     self.solver_s = 0.0
     self.t0 = time.time()
-    self.timeout_ms = 20000 if tier == "quick" else 120000
+    self.timeout_ms = 60000 if tier == "quick" else 240000
     self.log_lines = []
 
   # ---- bookkeeping
